@@ -13,7 +13,7 @@ import random
 from .. import aldyenv, tlc
 from ..core import MachineryError
 
-UNIT = 20  # objective units: 1/20
+UNIT = 2000  # objective units: 1/2000 (coefficients are tenths x halves = 1/20; per-binary costs also carry thousandths)
 
 
 # --------------------------------------------------------------------------- models
@@ -44,6 +44,10 @@ def gen_model(rng, tid):
         ub = rng.choice([-1, -1, -1, -1, 4, 6])  # bound on |e| in halves, -1 = free
         eq.append({"a": a, "b": b, "w": w, "ub": ub})
     c = [ccol[colof[i]] for i in range(n)]
+    # near-ties: a third of the models give every column an extra cost of 0-9 thousandths, so that assignments
+    # a few thousandths apart exist (the gap test's tolerance is 1e-5, the solution precision 1e-2)
+    tcol = [rng.randrange(10) for _ in range(ncols)] if rng.random() < 0.5 else [0] * ncols
+    t = [tcol[colof[i]] for i in range(n)]
     card = []
     for _ in range(rng.randint(0, 2)):
         s = sorted(rng.sample(range(1, n + 1), rng.randint(1, n)))
@@ -69,16 +73,18 @@ def gen_model(rng, tid):
             names.append(f"V_{tid}_{i}")
     return {
         "tid": tid, "k": "init", "n": n, "eq": eq, "c": c, "card": card, "ord": ordc, "prod": prod,
-        "gapN": gapN, "gapD": gapD, "limit": limit, "names": names,
+        "gapN": gapN, "gapD": gapD, "limit": limit, "names": names, "t": t,
     }
 
 
 def to_spec_event(d):
-    """Integer description in the spec's units (1/UNIT): a, c doubled (b is in halves)."""
+    """Integer description in the spec's units (1/UNIT = 1/2000): a doubled (b is in halves), weights x100,
+    costs = tenths x200 + thousandths x2."""
+    t = d.get("t") or [0] * d["n"]
     return {
         "tid": d["tid"], "k": "init", "n": d["n"],
-        "eq": [{"a": [2 * x for x in e["a"]], "b": e["b"], "w": e["w"], "ub": e["ub"]} for e in d["eq"]],
-        "c": [2 * x for x in d["c"]],
+        "eq": [{"a": [2 * x for x in e["a"]], "b": e["b"], "w": 100 * e["w"], "ub": e["ub"]} for e in d["eq"]],
+        "c": [200 * x + 2 * t[i] for i, x in enumerate(d["c"])],
         "card": d["card"], "ord": d["ord"], "prod": d["prod"],
         "gapN": d["gapN"], "gapD": d["gapD"], "limit": d["limit"],
     }
@@ -118,7 +124,8 @@ def run_model(d):
     for p in d["prod"]:
         m.prod(X[p["r"] - 1], [X[f - 1] for f in p["f"]])
     objective = m.abssum(E, coeffs=coeffs)
-    objective += m.quicksum((d["c"][i] / 10.0) * X[i] for i in range(n))
+    tt = d.get("t") or [0] * n
+    objective += m.quicksum((d["c"][i] / 10.0 + tt[i] / 1000.0) * X[i] for i in range(n))
     m.setObjective(objective)
     real_names = [m.varName(v) for v in X]
     names_ok = len(set(real_names)) == n
@@ -169,7 +176,7 @@ def run_model(d):
                 vals_ok = False
         u = obj * UNIT
         events.append({
-            "tid": d["tid"], "k": "yield", "obj": int(round(u)), "ongrid": abs(u - round(u)) < 1e-4,
+            "tid": d["tid"], "k": "yield", "obj": int(round(u)), "ongrid": abs(u - round(u)) < 1e-3,
             "active": active, "names_ok": bool(names_ok and not unknown and len(sol) == len(set(sol))),
             "vals_ok": vals_ok, "status": status,
         })
@@ -196,7 +203,8 @@ def raw_cbc_first(d):
         s.Add(av + ev >= 0)
         s.Add(av - ev >= 0)
         obj += e["w"] / 10.0 * av
-    obj += sum(d["c"][i] / 10.0 * X[i] for i in range(n))
+    tt = d.get("t") or [0] * n
+    obj += sum((d["c"][i] / 10.0 + tt[i] / 1000.0) * X[i] for i in range(n))
     for cc in d["card"]:
         ex = sum(X[i - 1] for i in cc["s"])
         if cc["op"] in ("le", "eq"):
